@@ -638,6 +638,29 @@ func (sc *specCtx) call(e *ast.CallExpr) Value {
 			out.C[j] = Select(Select(sc.st.region("chan.q."+typeName(et)+c.Suffix, SArr(SArr(c.Sort))), v.C[0]), Add(head, i))
 		}
 		return out
+	case "has", "at":
+		// map membership and value
+		m := sc.eval(arg(0))
+		mt, ok := m.T.Underlying().(*types.Map)
+		if !ok {
+			sc.errf(e, "not a map: %v", m.T)
+		}
+		kv := sc.eval(arg(1))
+		var k *Term
+		if len(kv.C) == 1 {
+			k = kv.C[0]
+		} else {
+			k = mapKeyTerm(x, kv)
+		}
+		hasR, vals, comps := mapRegions(mt)
+		if name == "has" {
+			return mBool(Select(Select(sc.st.region(hasR, SArr(SArr(SBool))), m.C[0]), k))
+		}
+		out := Value{T: mt.Elem(), C: make([]*Term, len(comps))}
+		for j, c := range comps {
+			out.C[j] = Select(Select(sc.st.region(vals[j], SArr(SArr(c.Sort))), m.C[0]), k)
+		}
+		return out
 	case "hastype":
 		v := sc.eval(arg(0))
 		t := sc.typeExpr(arg(1))
